@@ -343,6 +343,14 @@ def mp_cases(M):
         out.append([('e', '', b'v' * e)])
     out.append([('t', None, b'z' * 2), ('e', '', b'v' * (3 * M))])
     out.append([('e', '', b'v' * (M // 2 + 1)), ('g', '', b'u' * (M // 2 + 1))])
+    # text of three- and four-byte characters: the budget is a budget of BYTES (fields that fit as characters but not as bytes)
+    for ch in ('\u20ac', '\U0001f600'):
+        w = len(ch.encode('utf8'))
+        k = max(1, ((6 * M) // 10) // w)
+        out.append([('t', None, (ch * k).encode('utf8')), ('u', None, (ch * k).encode('utf8'))])
+        out.append([('t', None, (ch * k).encode('utf8')), ('u', None, b'w' * ((6 * M) // 10))])
+        out.append([('t', None, (ch * max(1, (M + w) // w)).encode('utf8'))])
+        out.append([('t%d' % i, None, (ch * max(1, ((3 * M) // 10) // w)).encode('utf8')) for i in range(4)])
     return out, hdr_t, hdr_f
 
 
